@@ -6,6 +6,7 @@ import (
 	"go/constant"
 	"go/token"
 	"go/types"
+	"os"
 	"sort"
 	"strings"
 
@@ -48,6 +49,39 @@ var pureList = []pureSpec{
 	{"protocol", "IGMPv1or2", "Len"},
 	{"protocol", "IGMPv3Query", "Len"},
 	{"protocol", "IGMPv3GroupRecord", "Len"},
+	// widened subset (round T1b): constant / field-sum Len() of the fixed-size kinds, stored-length Len() of the Nicira actions,
+	// learn-spec header constructors; struct-valued fields and promoted fields are followed (see fieldPath)
+	{"common", "Header", "Len"}, {"common", "HelloElemHeader", "Len"},
+	{"openflow13", "ActionHeader", "Len"}, {"openflow13", "ActionOutput", "Len"}, {"openflow13", "ActionSetqueue", "Len"},
+	{"openflow13", "ActionGroup", "Len"}, {"openflow13", "ActionMplsTtl", "Len"}, {"openflow13", "ActionDecNwTtl", "Len"},
+	{"openflow13", "ActionNwTtl", "Len"}, {"openflow13", "ActionPush", "Len"}, {"openflow13", "ActionPopVlan", "Len"},
+	{"openflow13", "ActionPopMpls", "Len"}, {"openflow13", "BundleControl", "Len"}, {"openflow13", "InstrHeader", "Len"},
+	{"openflow13", "InstrGotoTable", "Len"}, {"openflow13", "InstrWriteMetadata", "Len"}, {"openflow13", "InstrMeter", "Len"},
+	{"openflow13", "InPortField", "Len"}, {"openflow13", "EthDstField", "Len"}, {"openflow13", "EthSrcField", "Len"},
+	{"openflow13", "EthTypeField", "Len"}, {"openflow13", "VlanIdField", "Len"}, {"openflow13", "MplsLabelField", "Len"},
+	{"openflow13", "MplsBosField", "Len"}, {"openflow13", "Ipv4SrcField", "Len"}, {"openflow13", "Ipv4DstField", "Len"},
+	{"openflow13", "Ipv6SrcField", "Len"}, {"openflow13", "Ipv6DstField", "Len"}, {"openflow13", "IPv6FlowLabelField", "Len"},
+	{"openflow13", "IpProtoField", "Len"}, {"openflow13", "IpDscpField", "Len"}, {"openflow13", "TunnelIdField", "Len"},
+	{"openflow13", "MetadataField", "Len"}, {"openflow13", "PortField", "Len"}, {"openflow13", "TcpFlagsField", "Len"},
+	{"openflow13", "ArpOperField", "Len"}, {"openflow13", "TunnelIpv4SrcField", "Len"}, {"openflow13", "TunnelIpv4DstField", "Len"},
+	{"openflow13", "ArpXHaField", "Len"}, {"openflow13", "ArpXPaField", "Len"}, {"openflow13", "ActsetOutputField", "Len"},
+	{"openflow13", "IcmpTypeField", "Len"}, {"openflow13", "IcmpCodeField", "Len"}, {"openflow13", "DescStats", "Len"},
+	{"openflow13", "AggregateStats", "Len"}, {"openflow13", "TableStats", "Len"}, {"openflow13", "PortStatsRequest", "Len"},
+	{"openflow13", "PortStats", "Len"}, {"openflow13", "QueueStatsRequest", "Len"}, {"openflow13", "QueueStats", "Len"},
+	{"openflow13", "NXActionHeader", "Len"}, {"openflow13", "NXActionConjunction", "Len"}, {"openflow13", "NXActionRegLoad", "Len"},
+	{"openflow13", "NXActionRegMove", "Len"}, {"openflow13", "NXActionResubmit", "Len"}, {"openflow13", "NXActionResubmitTable", "Len"},
+	{"openflow13", "NXActionCTNAT", "Len"}, {"openflow13", "NXActionOutputReg", "Len"}, {"openflow13", "NXActionCTClear", "Len"},
+	{"openflow13", "NXActionDecTTL", "Len"}, {"openflow13", "NXActionDecTTLCntIDs", "Len"}, {"openflow13", "NXLearnSpecHeader", "Len"},
+	{"openflow13", "NXLearnSpecField", "Len"}, {"openflow13", "NXLearnSpec", "Len"}, {"openflow13", "NXActionController", "Len"},
+	{"openflow13", "Uint16Message", "Len"}, {"openflow13", "Uint32Message", "Len"}, {"openflow13", "ByteArrayField", "Len"},
+	{"openflow13", "CTLabel", "Len"}, {"openflow13", "ControllerID", "Len"}, {"openflow13", "TLVTableMap", "Len"},
+	{"openflow13", "SwitchConfig", "Len"},
+	{"openflow13", "", "NewLearnHeaderMatchFromValue"},
+	{"openflow13", "", "NewLearnHeaderMatchFromField"},
+	{"openflow13", "", "NewLearnHeaderLoadFromValue"},
+	{"openflow13", "", "NewLearnHeaderLoadFromField"},
+	{"openflow13", "", "NewLearnHeaderOutputFromField"},
+	{"protocol", "VLAN", "Len"},
 }
 
 type unsupported struct{ msg string }
@@ -68,6 +102,79 @@ type ptr struct {
 	extra    []string // helper definitions translated on demand, to be emitted before the definition in progress
 	depth    int
 	methods  map[string]*methodInfo // methods already translated: Type.name -> shape
+	nested   map[string]map[string]string // struct name -> struct-valued fields that translated code reads -> Lean type
+}
+
+// allPtr: translation state of the packages processed so far (pkgNames order), by package name. A struct or method of an
+// EARLIER package can be referred to from a later one (common.Header inside the openflow13 messages).
+var allPtr = map[string]*ptr{}
+
+// owner returns the translation state that owns the named struct type ty (after dereferencing one pointer) and the
+// struct's bare name; ok is false when ty is not a named struct of this package or of an earlier library package.
+func (t *ptr) owner(ty types.Type) (*ptr, string, *types.Struct, bool) {
+	if p, ok := ty.(*types.Pointer); ok {
+		ty = p.Elem()
+	}
+	n, ok := ty.(*types.Named)
+	if !ok {
+		return nil, "", nil, false
+	}
+	st, ok := n.Underlying().(*types.Struct)
+	if !ok || n.Obj().Pkg() == nil {
+		return nil, "", nil, false
+	}
+	if n.Obj().Pkg() == t.p.Types {
+		return t, n.Obj().Name(), st, true
+	}
+	if o, ok := allPtr[n.Obj().Pkg().Name()]; ok && o != t && o.p.Types.Path() == n.Obj().Pkg().Path() {
+		return o, n.Obj().Name(), st, true
+	}
+	return nil, "", nil, false
+}
+
+// fieldPath follows a selection index path from struct type ty (promoted fields go through embedded structs; a pointer
+// on the way is taken to be non-nil) and returns the Lean projection path ".A.B" and the type of the last field. Every
+// struct-valued field on the way is recorded so that the projection of its owner carries it.
+func (t *ptr) fieldPath(ty types.Type, index []int) (string, types.Type) {
+	path := ""
+	cur := ty
+	for _, ix := range index {
+		o, name, st, ok := t.owner(cur)
+		if !ok {
+			bad("selector through %s", cur)
+		}
+		o.structs[name] = st
+		f := st.Field(ix)
+		if _, isInt := leanIntType(f.Type()); !isInt {
+			ln, ok := o.structName(f.Type())
+			if !ok {
+				bad("field %s of non-scalar type %s", f.Name(), f.Type())
+			}
+			if o.nested[name] == nil {
+				o.nested[name] = map[string]string{}
+			}
+			o.nested[name][f.Name()] = ln
+		}
+		path += "." + lname(f.Name())
+		cur = f.Type()
+	}
+	return path, cur
+}
+
+// rootIdent returns the identifier at the bottom of a chain of field selectors (a.B.C -> a).
+func rootIdent(e ast.Expr) (*ast.Ident, bool) {
+	for {
+		switch x := e.(type) {
+		case *ast.Ident:
+			return x, true
+		case *ast.SelectorExpr:
+			e = x.X
+		case *ast.ParenExpr:
+			e = x.X
+		default:
+			return nil, false
+		}
+	}
 }
 
 func leanIntType(t types.Type) (string, bool) {
@@ -112,19 +219,15 @@ func width(lt string) string {
 
 // structName returns the generated structure name for *T or T where T is a named struct of this package.
 func (t *ptr) structName(ty types.Type) (string, bool) {
-	if p, ok := ty.(*types.Pointer); ok {
-		ty = p.Elem()
-	}
-	n, ok := ty.(*types.Named)
+	o, name, st, ok := t.owner(ty)
 	if !ok {
 		return "", false
 	}
-	st, ok := n.Underlying().(*types.Struct)
-	if !ok {
-		return "", false
+	o.structs[name] = st
+	if o != t {
+		return o.p.Types.Name() + "." + name, true
 	}
-	t.structs[n.Obj().Name()] = st
-	return n.Obj().Name(), true
+	return name, true
 }
 
 func (t *ptr) leanType(ty types.Type) string {
@@ -183,13 +286,16 @@ func (t *ptr) expr(e ast.Expr) string {
 		if sel == nil || sel.Kind() != types.FieldVal {
 			bad("selector %s", nodeString(t.p.Fset, x))
 		}
-		if _, ok := leanIntType(sel.Type()); !ok {
-			bad("field %s of non-scalar type %s", x.Sel.Name, sel.Type())
-		}
 		if _, ok := t.structName(t.info.TypeOf(x.X)); !ok {
 			bad("selector base type %s", t.info.TypeOf(x.X))
 		}
-		return t.expr(x.X) + "." + lname(x.Sel.Name)
+		path, ft := t.fieldPath(t.info.TypeOf(x.X), sel.Index())
+		if _, ok := leanIntType(ft); !ok {
+			if _, ok := t.structName(ft); !ok {
+				bad("field %s of non-scalar type %s", x.Sel.Name, sel.Type())
+			}
+		}
+		return t.expr(x.X) + path
 	case *ast.UnaryExpr:
 		lt := t.leanType(tv.Type)
 		switch x.Op {
@@ -367,8 +473,15 @@ func (t *ptr) call(c *ast.CallExpr) string {
 	}
 	if se, ok := c.Fun.(*ast.SelectorExpr); ok {
 		if sel := t.info.Selections[se]; sel != nil && sel.Kind() == types.MethodVal {
-			if sn, ok := t.structName(t.info.TypeOf(se.X)); ok {
-				if m := t.methodOnDemand(sn, se.Sel.Name); m != nil && !m.mutates && m.nres == 1 {
+			if sn, ok := t.structName(t.info.TypeOf(se.X)); ok && len(sel.Index()) == 1 {
+				o, bare, _, _ := t.owner(t.info.TypeOf(se.X))
+				var m *methodInfo
+				if o == t {
+					m = t.methodOnDemand(bare, se.Sel.Name)
+				} else {
+					m = o.methods[bare+"."+se.Sel.Name] // a method of an earlier package: only if already translated
+				}
+				if m != nil && !m.mutates && m.nres == 1 {
 					var args []string
 					for _, a := range c.Args {
 						args = append(args, t.expr(a))
@@ -479,7 +592,7 @@ func (t *ptr) assigned(stmts []ast.Stmt, out map[string]bool) {
 							out[lname(lh.Name)] = true
 						}
 					case *ast.SelectorExpr:
-						if id, ok := lh.X.(*ast.Ident); ok {
+						if id, ok := rootIdent(lh.X); ok {
 							out[lname(id.Name)] = true
 						}
 					}
@@ -489,7 +602,7 @@ func (t *ptr) assigned(stmts []ast.Stmt, out map[string]bool) {
 					out[lname(id.Name)] = true
 				}
 				if se, ok := x.X.(*ast.SelectorExpr); ok {
-					if id, ok := se.X.(*ast.Ident); ok {
+					if id, ok := rootIdent(se.X); ok {
 						out[lname(id.Name)] = true
 					}
 				}
@@ -522,11 +635,32 @@ func (t *ptr) assignTo(lhs ast.Expr, rhs string) string {
 		}
 		return fmt.Sprintf("let %s := %s\n", lname(l.Name), rhs)
 	case *ast.SelectorExpr:
-		id, ok := l.X.(*ast.Ident)
+		id, ok := rootIdent(l.X)
 		if !ok || t.recvObj == nil || t.info.ObjectOf(id) != t.recvObj {
 			bad("assignment through %s", nodeString(t.p.Fset, l))
 		}
-		return fmt.Sprintf("let %s := { %s with %s := %s }\n", t.recvName, t.recvName, lname(l.Sel.Name), rhs)
+		// the whole path from the receiver: a.B.C = v  /  a promoted field  ->  { a with B.C := v }
+		path := ""
+		var walk func(e ast.Expr)
+		walk = func(e ast.Expr) {
+			switch y := e.(type) {
+			case *ast.ParenExpr:
+				walk(y.X)
+			case *ast.SelectorExpr:
+				walk(y.X)
+				sel := t.info.Selections[y]
+				if sel == nil || sel.Kind() != types.FieldVal {
+					bad("assignment through %s", nodeString(t.p.Fset, l))
+				}
+				pp, _ := t.fieldPath(t.info.TypeOf(y.X), sel.Index())
+				path += pp
+			}
+		}
+		walk(l)
+		if _, ok := leanIntType(t.info.TypeOf(l)); !ok {
+			bad("assignment of non-scalar field %s", nodeString(t.p.Fset, l))
+		}
+		return fmt.Sprintf("let %s := { %s with %s := %s }\n", t.recvName, t.recvName, strings.TrimPrefix(path, "."), rhs)
 	}
 	bad("assignment target %T", lhs)
 	return ""
@@ -815,7 +949,7 @@ func (t *ptr) translate(fd *ast.FuncDecl, sp pureSpec) (def string, err error) {
 			}
 			for _, l := range lhs {
 				if se, ok := l.(*ast.SelectorExpr); ok {
-					if id, ok := se.X.(*ast.Ident); ok && t.recvObj != nil && t.info.ObjectOf(id) == t.recvObj {
+					if id, ok := rootIdent(se.X); ok && t.recvObj != nil && t.info.ObjectOf(id) == t.recvObj {
 						t.mutates = true
 					}
 				}
@@ -866,9 +1000,17 @@ func (t *ptr) translate(fd *ast.FuncDecl, sp pureSpec) (def string, err error) {
 func genPure(pk map[string]*packages.Package) string {
 	var sb strings.Builder
 	sb.WriteString("-- GENERATED by ofvextract from /repo; do not edit.\n-- Transliteration of straight-line integer helpers (Go int = Int64, uintN = UIntN, wrap-around arithmetic).\nimport OFV.Go.Ints\nnamespace OFV.Gen\nopen OFV\n")
+	// phase 1: translate, package by package (a later package may register structs in an earlier one)
+	allPtr = map[string]*ptr{}
+	pdefs := map[string][]string{}
 	for _, pn := range pkgNames {
 		p := pk[pn]
-		t := &ptr{p: p, info: p.TypesInfo, known: map[string]bool{}, structs: map[string]*types.Struct{}, methods: map[string]*methodInfo{}}
+		t := &ptr{p: p, info: p.TypesInfo, known: map[string]bool{}, structs: map[string]*types.Struct{}, methods: map[string]*methodInfo{},
+			nested: map[string]map[string]string{}}
+		allPtr[pn] = t
+		if os.Getenv("OFVEXTRACT_PROBE") != "" {
+			probeAll(t)
+		}
 		var defs []string
 		for _, sp := range pureList {
 			if sp.pkg != pn {
@@ -883,6 +1025,11 @@ func genPure(pk map[string]*packages.Package) string {
 				rep.Translated = append(rep.Translated, key)
 				continue
 			}
+			if _, done := t.methods[sp.recv+"."+sp.name]; sp.recv != "" && done {
+				// a method already emitted on demand, ahead of an earlier caller
+				rep.Translated = append(rep.Translated, key)
+				continue
+			}
 			fd := findFunc(p, sp.recv, sp.name)
 			if fd == nil {
 				rep.Opaque[key] = "function not found"
@@ -893,6 +1040,7 @@ func genPure(pk map[string]*packages.Package) string {
 			if err != nil {
 				rep.Opaque[key] = err.Error()
 				defs = append(defs, fmt.Sprintf("-- opaque_changed %s: %s\n", key, err.Error()))
+				t.extra = nil
 				continue
 			}
 			if sp.recv == "" {
@@ -909,7 +1057,12 @@ func genPure(pk map[string]*packages.Package) string {
 			t.extra = nil
 			defs = append(defs, d)
 		}
-		if len(defs) == 0 {
+		pdefs[pn] = defs
+	}
+	// phase 2: emit
+	for _, pn := range pkgNames {
+		t, defs := allPtr[pn], pdefs[pn]
+		if len(defs) == 0 && len(t.structs) == 0 {
 			continue
 		}
 		fmt.Fprintf(&sb, "\nnamespace %s\n\n", pn)
@@ -918,7 +1071,34 @@ func genPure(pk map[string]*packages.Package) string {
 			names = append(names, n)
 		}
 		sort.Strings(names)
+		// a struct that carries another struct of this package comes after it
+		var order []string
+		state := map[string]int{}
+		var visit func(n string)
+		visit = func(n string) {
+			if state[n] != 0 {
+				return // done, or a cycle (cannot be emitted; Lean will reject the file and the tie is reported broken)
+			}
+			state[n] = 1
+			var fs []string
+			for f := range t.nested[n] {
+				fs = append(fs, f)
+			}
+			sort.Strings(fs)
+			for _, f := range fs {
+				if dep := t.nested[n][f]; !strings.Contains(dep, ".") {
+					if _, ok := t.structs[dep]; ok {
+						visit(dep)
+					}
+				}
+			}
+			state[n] = 2
+			order = append(order, n)
+		}
 		for _, n := range names {
+			visit(n)
+		}
+		for _, n := range order {
 			st := t.structs[n]
 			fmt.Fprintf(&sb, "/-- scalar projection of Go struct %s.%s -/\nstructure %s where\n", pn, n, n)
 			cnt := 0
@@ -926,6 +1106,12 @@ func genPure(pk map[string]*packages.Package) string {
 				f := st.Field(i)
 				lt, ok := leanIntType(f.Type())
 				if !ok {
+					if nt, used := t.nested[n][f.Name()]; used {
+						// a struct-valued (or pointer-to-struct) field that translated code goes through; a pointer is
+						// taken to be non-nil
+						fmt.Fprintf(&sb, "  %s : %s := {}\n", lname(f.Name()), nt)
+						cnt++
+					}
 					continue
 				}
 				if lt == "Bool" {
@@ -948,4 +1134,42 @@ func genPure(pk map[string]*packages.Package) string {
 	}
 	sb.WriteString("\nend OFV.Gen\n")
 	return sb.String()
+}
+
+// probeAll (developer aid, OFVEXTRACT_PROBE=1): tries every function of the package and lists on stderr the ones inside
+// the translated subset; the translation state is discarded.
+func probeAll(t *ptr) {
+	for _, f := range t.p.Syntax {
+		if strings.HasSuffix(t.p.Fset.Position(f.Pos()).Filename, "_test.go") {
+			continue
+		}
+		for _, d := range f.Decls {
+			fd, ok := d.(*ast.FuncDecl)
+			if !ok || fd.Body == nil {
+				continue
+			}
+			recv := ""
+			if fd.Recv != nil && len(fd.Recv.List) == 1 {
+				ty := fd.Recv.List[0].Type
+				if st, ok := ty.(*ast.StarExpr); ok {
+					ty = st.X
+				}
+				if id, ok := ty.(*ast.Ident); ok {
+					recv = id.Name
+				} else {
+					continue
+				}
+			}
+			pt := &ptr{p: t.p, info: t.info, known: map[string]bool{}, structs: map[string]*types.Struct{}, methods: map[string]*methodInfo{},
+				nested: map[string]map[string]string{}}
+			nTr := len(rep.Translated)
+			_, err := pt.translate(fd, pureSpec{t.p.Types.Name(), recv, fd.Name.Name})
+			rep.Translated = rep.Translated[:nTr]
+			if err == nil {
+				fmt.Fprintf(os.Stderr, "PROBE ok %s %s %s\n", t.p.Types.Name(), recv, fd.Name.Name)
+			} else {
+				fmt.Fprintf(os.Stderr, "PROBE no %s %s %s: %s\n", t.p.Types.Name(), recv, fd.Name.Name, err)
+			}
+		}
+	}
 }
